@@ -41,6 +41,13 @@ def bump (k : K) : List (Entry K) → Option (List (Entry K))
 
 def TC.init (w : Nat) : TC K := ⟨0, w, 1, []⟩
 
+/-- `ThresholdCounter(threshold)` for an exactly represented threshold `p/q` (a `Fraction`, a `Decimal`):
+    the guard `0 < threshold < 1` (`none` = ValueError) and `_thresh_count = int(1 / threshold)`, which for
+    exact rationals is `⌊q/p⌋`.  (For a `float` threshold the division is a rounded float division; the
+    harness computes `w` for those.) -/
+def TC.ofThreshold (p q : Nat) : Option (TC K) :=
+  if 0 < p ∧ p < q then some (TC.init (q / p)) else none
+
 /-- increment-or-insert: the `try: … += 1 / except KeyError: … = [1, bucket - 1]` statement -/
 def upsert (k : K) (b : Nat) (cm : List (Entry K)) : List (Entry K) :=
   match bump k cm with
@@ -112,6 +119,23 @@ def TC.elements (s : TC K) : List K := s.cm.flatMap fun e => List.replicate e.cn
 def TC.commonCount (s : TC K) : Nat := (s.cm.map (·.cnt)).sum
 def TC.uncommonCount (s : TC K) : Nat := s.total - s.commonCount
 
+/-- `get_commonality()`: `float(common) / total` as the exact ratio (numerator, denominator);
+    `none` = the division by zero on a counter nothing was added to (behaviour outside the statement) -/
+def TC.commonality (s : TC K) : Option (Nat × Nat) :=
+  if s.total = 0 then none else some (s.commonCount, s.total)
+
+/-- ghost: the counts the compaction inside `add k` throws away (0 when `add k` does not compact);
+    never computed by the code - `get_uncommon_count()` is documented as their sum -/
+def TC.culledBy (s : TC K) (k : K) : Nat :=
+  if (s.total + 1) % s.w = 0 then
+    (((upsert k s.bucket s.cm).filter (fun e => !(decide (e.cnt + e.dlt > s.bucket)))).map (·.cnt)).sum
+  else 0
+
+/-- ghost: everything culled while the additions `ks` are applied to `s` -/
+def culled (s : TC K) : List K → Nat
+  | [] => 0
+  | k :: ks => s.culledBy k + culled (s.add k) ks
+
 /-- `self.update(other)` with another ThresholdCounter: `other.items()` is the mapping
     (`other` may be `self`: `items()` returns a list, i.e. a snapshot) -/
 def TC.absorb (s src : TC K) : TC K := s.step (.updateMap src.items)
@@ -129,5 +153,26 @@ def TC.mostCommon (s : TC K) (n : Option Int) : List (K × Nat) :=
   match n with
   | none => sortDesc s.items
   | some n => if n ≤ 0 then [] else (sortDesc s.items).take n.toNat
+
+/-! canonical printing of `most_common` results (keys are numbers in the driver).  The statement asks for
+    "sorted by descending count" only: the order among equal counts is free, and so is the choice among
+    equal counts at the cut of `most_common(n)`.  Both sides of the correspondence print a result through
+    `canon` / `canonTop`, so that exactly the free part is not compared. -/
+
+/-- count descending, then key ascending -/
+def canonLe (a b : Nat × Nat) : Bool := b.2 < a.2 || (a.2 == b.2 && a.1 ≤ b.1)
+
+def insCanon (x : Nat × Nat) : List (Nat × Nat) → List (Nat × Nat)
+  | [] => [x]
+  | y :: ys => if canonLe x y then x :: y :: ys else y :: insCanon x ys
+
+def canon (l : List (Nat × Nat)) : List (Nat × Nat) := l.foldr insCanon []
+
+/-- a `most_common(n)` result: counts in descending order; the keys of the entries with the smallest
+    returned count are not named (`none`): which of several equally frequent keys make the cut is free -/
+def canonTop (r : List (Nat × Nat)) : List (Option Nat × Nat) :=
+  match (canon r).getLast? with
+  | none => []
+  | some last => (canon r).map fun p => if last.2 < p.2 then (some p.1, p.2) else (none, p.2)
 
 end C20
